@@ -1110,11 +1110,12 @@ impl Sim {
             .verif_snapshot()
             .into_iter()
             .map(|(u, t, n, idx, body)| {
-                let ents = self.with_names(Some(ci), |names| {
-                    wire::decode_mutate_body(&mut wire::Cur::new(&body), names).map(|x| Value::Object(x.0))
+                let dec = self.with_names(Some(ci), |names| {
+                    wire::decode_mutate_body(&mut wire::Cur::new(&body), names).map(|x| (Value::Object(x.0), x.2))
                 });
+                let (ents, order) = dec.unwrap_or_else(|e| (json!({"?": e}), Vec::new()));
                 json!({"upd": u.get(), "tick": t.get(), "idx": idx, "cnt": if self.cfg.track { n as i64 } else { -1 },
-                       "ents": ents.unwrap_or_else(|e| json!({"?": e}))})
+                       "ents": ents, "order": order})
             })
             .collect();
         let mut pre = serde_json::Map::new();
